@@ -21,7 +21,10 @@
    differ from the model's (harness defect); 16 autoTableLayout's column widths or
    used table width differ from the float32 model run on the preferred widths the
    implementation computed; 17 those preferred widths satisfy the hypotheses of
-   C13_auto_layout_fills but the columns + total spacing are not the used width. *)
+   C13_auto_layout_fills but the columns + total spacing are not the used width;
+   18 (table split across pages, every fragment read after the whole layout) the
+   ColumnPositions of a fragment are not the model's for that fragment's own
+   content box and column widths; 19 a cell of a fragment is not on its columns. *)
 From Verif Require Export Base.F32 Base.GoSem Layout.TableGeom Layout.TableGeomSpec Box.TableGridPlain Layout.TableGeomAuto.
 From Coq Require Import QArith List ZArith NArith Bool.
 Import ListNotations.
@@ -52,7 +55,14 @@ Inductive ggroup_obs := GOG (role : N) (rows : list (list gcell_obs)).
 (* one column as tableAndColumnsPreferredWidths described it *)
 Inductive acol_in := AC (mn mx pct : Q) (constrained has_cell no_max_content : bool).
 
+(* the part of a table laid out on one page, read after the WHOLE document was
+   laid out: content box x, horizontal border spacing, ColumnWidths,
+   ColumnPositions, rows (inputs: GridX / Colspan / paddings / borders of the
+   fragment's own cells) *)
+Inductive frag := Frag (x0 bsx : Q) (widths positions : list Q) (rows : list hrow).
+
 Inductive case :=
+| CPaged (frags : list frag)
 | CAuto (width : oq) (avail tmin tmax spacing : Q) (cols : list acol_in) (status : N) (out_cw : list Q) (out_w : Q)
 | CGrid (groups : list ggroup_in) (obs : list ggroup_obs) (auto : bool) (ncols : Z) (claim_width claim_norig : Z)
 | CFixed (w0 : Q) (cols : list oq) (cells : list fcell_in) (bsx : Q) (status : N) (out_cw : list Q) (out_w : Q)
@@ -93,6 +103,16 @@ Definition horiz_row_ok (widths positions : list Q) (bsx : Q) (r : hrow) : N :=
 
 Fixpoint first_nonzero (l : list N) : N :=
   match l with [] => 0%N | x :: r => if N.eqb x 0 then first_nonzero r else x end.
+
+(* one fragment against the model run on its own page geometry (code 18: the
+   column positions of a fragment are not those of its own content box and
+   column widths; 19: a cell of a fragment is not where its columns are) *)
+Definition frag_check (f : frag) : N :=
+  let 'Frag x0 bsx widths positions rows := f in
+  if negb (qlist_eqb (nth_default [] (fragments_positions f32 bsx [(x0, widths)]) 0) positions) then 18%N
+  else match first_nonzero (map (horiz_row_ok widths positions bsx) rows) with
+       | 0%N => 0%N | 6%N => 6%N | _ => 19%N
+       end.
 
 (* vertical: compare one group *)
 Definition nth_obs (rows : list vrow) (r i : nat) : option vobs :=
@@ -165,6 +185,7 @@ Definition auto_hyps (tmin tmax spacing : Q) (cols : list acol) : bool :=
   Qle_bool (sumQ (map ac_min cols) + spacing) (tmin + slack) && Qle_bool tmin tmax && existsb ac_cell cols.
 
 Inductive model_result :=
+| MPaged (positions : list (list Q))
 | MAuto (cw : list Q) (w : Q) (hyps : bool)
 | MGrid (roles : list N) (grid : res (list (list prow))) (width norig : Z)
 | MFixed (cw : list Q) (w : Q) | MPanic (site : N) | MFuel
@@ -174,6 +195,9 @@ Inductive model_result :=
 
 Definition model_out (c : case) : model_result :=
   match c with
+  | CPaged frags =>
+      MPaged (map (fun f => let 'Frag x0 bsx widths _ _ := f in
+                            nth_default [] (fragments_positions f32 bsx [(x0, widths)]) 0) frags)
   | CAuto width avail tmin tmax spacing cols _ _ _ =>
       let '(cw, w) := auto_table_layout f32 (oq_opt width) avail tmin tmax spacing (map acol_of cols) in
       MAuto cw w (auto_hyps tmin tmax spacing (map acol_of cols))
@@ -197,6 +221,7 @@ Definition model_out (c : case) : model_result :=
 
 Definition check (c : case) : N :=
   match c with
+  | CPaged frags => first_nonzero (map frag_check frags)
   | CAuto width avail tmin tmax spacing cols status out_cw out_w =>
       let acs := map acol_of cols in
       let '(cw, w) := auto_table_layout f32 (oq_opt width) avail tmin tmax spacing acs in
